@@ -22,7 +22,14 @@ Definition docs_wf (l : list (id * body)) : Prop :=
 Definition info_sound (B : N) (f : frac) : Prop :=
   forall x b lo hi, lookup f x = Some b -> lo <= fst x -> fst x <= hi -> hi <= B -> intersecting f lo hi = true.
 
-Definition frac_wf (B : N) (f : frac) : Prop := docs_wf (f_docs f) /\ 1 <= f_name f /\ info_sound B f.
+(* the block layout of the docs file: a decoded block is at most 2^30 bytes (so that every in-block offset
+   fits PackDocPos's 30 bits - the writer panics otherwise) and the block index fits uint32 *)
+Definition layout_wf (f : frac) : Prop :=
+  Forall (fun blk => block_size blk <= max_doc_offset + 1) (blocks_of f) /\
+  N.of_nat (length (blocks_of f)) <= two32.
+
+Definition frac_wf (B : N) (f : frac) : Prop :=
+  docs_wf (f_docs f) /\ 1 <= f_name f /\ info_sound B f /\ layout_wf f.
 
 Definition is_some {A} (o : option A) : bool := match o with Some _ => true | None => false end.
 Definition hint_ok (f : frac) (s : idsrc) : bool := (snd s =? 0) || (snd s =? f_name f).
